@@ -22,6 +22,7 @@ class Config:
             self.opaque.update(opaque)
         self.max_depth = max_depth
         self.force = None
+        self.loop_marks = False
         self.unroll = unroll
         self.max_steps = max_steps
         self.inline_layer = set(inline_layer)
